@@ -1,123 +1,318 @@
 /-
-  Model of layer.go (C11): the life cycle of a `claircore.Layer` around the
-  tarfs view, and the deprecated `Layer.Files`.
+  C01 — layered file systems: the OCI layer semantics (`flatten`), the scanners as
+  parameters, the per-layer artifacts the indexer works from, and the composed
+  model of `Index` on a layer stack.
 
-    LayerSt              the fields init / closed / sys / rd of struct Layer
-    mediaClass           the switch on desc.MediaType in Layer.Init
-    layerInit            Layer.Init (digest parsed first; tarfs.New for the six
-                         OCI tar media types; os.DirFS for the claircore
-                         filesystem type; anything else is an error)
-    layerFS, layerReader Layer.FS, Layer.Reader (which of them work when)
-    layerClose           Layer.Close (second Close panics)
-    normalizeIn          normalizeIn("/", p) on a Unix path
-    layerFiles           Layer.Files: fs.WalkDir over the view, fs.ReadFile of
-                         every wanted entry that is not a directory
-
-  Core Lean only.
+  A layer is a list of (clean relative path, entry).  `present` is the lookup
+  semantics of applying layers in order:  the newest layer that has a regular
+  file at `q` decides; a layer hides what lower layers left at `q` when it
+  carries a whiteout covering `q` (`.wh.x` removes `x` and everything below,
+  `.wh..wh..opq` removes everything below its directory), a regular file at an
+  ancestor of `q`, any entry below `q`, or a directory at `q`.
+  The Go harness has the same definition as a list-building function
+  (go/internal/c01/image.go `flatten`); the two are compared on every generated
+  stack (`flat` lines).  Core Lean only.
 -/
-import ClairModel.Model.TarFSDir
+import ClairModel.Model.Coalesce
 
-namespace ClairModel.TarFS
+namespace ClairModel.LayerFS
+open ClairModel.Coalesce
 
-inductive MediaClass where
-  | tar | dirfs | unknown
-deriving DecidableEq, Repr
+inductive Entry where
+  | file (content : String)
+  | dir
+deriving DecidableEq, Repr, Inhabited
 
-/-- The media types `Layer.Init` builds a tarfs view for. -/
-def tarMediaTypes : List String :=
-  [ "application/vnd.oci.image.layer.v1.tar",
-    "application/vnd.oci.image.layer.v1.tar+gzip",
-    "application/vnd.oci.image.layer.v1.tar+zstd",
-    "application/vnd.oci.image.layer.nondistributable.v1.tar",
-    "application/vnd.oci.image.layer.nondistributable.v1.tar+gzip",
-    "application/vnd.oci.image.layer.nondistributable.v1.tar+zstd" ]
+/-- one image layer: digest and entries -/
+structure FSLayer where
+  hash : String
+  entries : List (String × Entry)
+deriving Repr, Inhabited
 
-def mediaClass (mt : String) : MediaClass :=
-  if tarMediaTypes.contains mt then .tar
-  else if mt = "application/vnd.claircore.filesystem" then .dirfs
-  else .unknown
+/-- `q` lies strictly below directory `p` -/
+def under (q p : String) : Bool := (p ++ "/").toList.isPrefixOf q.toList
 
-structure LayerSt where
-  init : Bool := false
-  closed : Bool := false
-  sys : Option FS := none
-  rd : Bool := false          -- l.rd != nil
-deriving Repr
+def opqName : String := ".wh..wh..opq"
 
-inductive LayerErr where
-  | twice            -- Init on an initialised Layer
-  | digest           -- ParseDigest failed
-  | media            -- unknown MediaType / filesystem type without URI
-  | view (e : Err)   -- tarfs.New failed (wrapped with %w: the class survives)
-  | uninit           -- FS / Reader / Close on an uninitialised Layer
-  | noReader         -- Reader on a Layer without a ReaderAt
-deriving DecidableEq, Repr
+/-- the entry is a whiteout marker (a regular file whose base name starts with `.wh.`) -/
+def isWhiteout (p : String) : Bool := whPrefix.isPrefixOf (base p).toList
 
-/-- `Layer.Init` for a tar (or unknown) media type. `digestOK`: the digest
-    string parses. The members are what the ReaderAt holds. -/
-def layerInit (st : LayerSt) (mt : String) (digestOK : Bool) (ms : List Member) : LayerSt × Option LayerErr :=
-  if st.init then (st, some .twice)
-  else if !digestOK then (st, some .digest)
+/-- the whiteout entry `w` removes path `q` of the lower layers (OCI image spec, "Whiteouts") -/
+def covers (w q : String) : Bool :=
+  let d := dir w
+  let b := base w
+  if b = opqName then d = "." || under q d
   else
-    let st1 := { st with rd := true }
-    match mediaClass mt with
-    | .tar =>
-      match newFS ms with
-      | .ok fs => ({ st1 with sys := some fs, init := true }, none)
-      | .error e => (st1, some (.view e))
-    | .dirfs => (st1, some .media)      -- the harness passes no URI
-    | .unknown => (st1, some .media)
+    let t := join2 d (String.ofList (b.toList.drop 4))
+    q = t || under q t
 
-def layerFS (st : LayerSt) : Except LayerErr FS :=
-  if !st.init then .error .uninit
-  else match st.sys with
-    | some fs => .ok fs
-    | none => .error .uninit
+/-- content of the regular, non-whiteout file at `q` in the layer -/
+def fileOf (l : FSLayer) (q : String) : Option String :=
+  match l.entries.find? (fun e => e.1 = q) with
+  | some (_, .file c) => if isWhiteout q then none else some c
+  | _ => none
 
-def layerReader (st : LayerSt) : Option LayerErr :=
-  if !st.init then some .uninit
-  else if !st.rd then some .noReader
-  else none
+/-- whiteout entries of a layer (what whiteout.Scanner reports) -/
+def whiteoutsOf (l : FSLayer) : List String :=
+  l.entries.filterMap fun e => match e.2 with
+    | .file _ => if isWhiteout e.1 then some e.1 else none
+    | .dir => if isWhiteout e.1 then some e.1 else none
 
-inductive CloseRes where
-  | ok | err | panic
-deriving DecidableEq, Repr
+/-- whiteouts that act in `flatten`: regular files only -/
+def whiteoutFiles (l : FSLayer) : List String :=
+  l.entries.filterMap fun e => match e.2 with
+    | .file _ => if isWhiteout e.1 then some e.1 else none
+    | .dir => none
 
-def layerClose (st : LayerSt) : LayerSt × CloseRes :=
-  if !st.init then (st, .err)
-  else if st.closed then (st, .panic)
-  else ({ st with closed := true }, .ok)
+/-- the layer removes what lower layers left at `q` -/
+def hides (l : FSLayer) (q : String) : Bool :=
+  (whiteoutFiles l).any (fun w => covers w q) ||
+  l.entries.any (fun e =>
+    (match e.2 with
+      | .file _ => !isWhiteout e.1 && under q e.1      -- a file replaces a directory tree
+      | .dir => e.1 = q) ||                             -- a directory replaces a file
+    (!(isWhiteout e.1 && e.2 != .dir) && under e.1 q))  -- something below `q`: `q` is a directory now
 
-/-- `normalizeIn("/", p)`: clean, make absolute, drop the leading slash. -/
-def normalizeIn (p : Bytes) : Bytes :=
-  let c := clean p
-  let a := if isAbs c then c else pathJoin2 [SL] c
-  if isAbs a then a.drop 1 else a
+/-- lookup in the stack, newest layer first -/
+def presentRev : List FSLayer → String → Option String
+  | [], _ => none
+  | l :: older, q =>
+    match fileOf l q with
+    | some c => some c
+    | none => if hides l q then none else presentRev older q
 
-/-- The walk of `Layer.Files`: the first error (of the walk or of a read) ends
-    it; a wanted name is read once. -/
-def filesWalk (fs : FS) : List WalkItem → List Bytes → List (Bytes × Bytes) → Except Err (List (Bytes × Bytes))
-  | [], _, acc => .ok acc.reverse
-  | .readErr _ :: _, _, _ => .error .other
-  | .ent p t :: rest, want, acc =>
-    if t = .dir then filesWalk fs rest want acc
-    else if want.contains p then
-      match readFileFS fs p with
-      | .ok d => filesWalk fs rest (want.filter (· ≠ p)) ((p, d) :: acc)
-      | .error e => .error e
-    else filesWalk fs rest want acc
+/-- content of `q` in the image obtained by applying `layers` in order -/
+def present (layers : List FSLayer) (q : String) : Option String := presentRev layers.reverse q
 
-inductive FilesRes where
-  | found (fs : List (Bytes × Bytes))
-  | notFound
-  | err (e : Err)
-deriving Repr
+def dedup : List String → List String
+  | [] => []
+  | x :: xs => if xs.contains x then dedup xs else x :: dedup xs
 
-/-- `Layer.Files(paths...)`; `cap` bounds the walk like `walkDir`. -/
-def layerFiles (fs : FS) (paths : List Bytes) (cap : Nat) : FilesRes :=
-  match filesWalk fs (walkDir fs cap) (paths.map normalizeIn) [] with
-  | .error e => .err e
-  | .ok [] => .notFound
-  | .ok l => .found l
+/-- every path that is a regular file in some layer -/
+def filePaths (layers : List FSLayer) : List String :=
+  dedup (layers.flatMap fun l => l.entries.filterMap fun e => match e.2 with
+    | .file _ => some e.1
+    | .dir => none)
 
-end ClairModel.TarFS
+/-- the flattened image as a list of regular files -/
+def flatten (layers : List FSLayer) : List (String × String) :=
+  (filePaths layers).filterMap fun q => (present layers q).map fun c => (q, c)
+
+/-! ### the scanners (parameters) and the indexer on a layer stack -/
+
+/-- One file-based package ecosystem (python, java, ruby, nodejs: `gobin = false`, coalesced by
+    the identical python|java|ruby|nodejs coalescers; Go executables: `gobin = true`, coalesced
+    by gobin/coalescer.go).  `scan path content`: the packages the ecosystem's scanner reads out
+    of one regular file (python METADATA, package.json, gemspec, jar: at most one; a Go
+    executable: its main module, the standard library and every dependency). -/
+structure FileEco where
+  gobin : Bool := false
+  scan : String → String → List Pkg
+
+/-- The scanners, abstractly.  `osDbs`: paths of the OS package databases (one linux
+    ecosystem each: dpkg's `var/lib/dpkg/status`, apk's `lib/apk/db/installed`, rpm under the
+    `rpm` ecosystem, …); `rhelDbs`: the same for ecosystems coalesced by `rhel.Coalescer`;
+    `scanDB d content`: the packages an OS database scanner reads out of the file;
+    `distFile rh d` / `scanDist rh d content`: the file the distribution scanner of the ecosystem
+    of database `d` (`rh`: under `rhel.Coalescer`) reads, and what it makes of its content;
+    `fecos`: the file-based ecosystems. -/
+structure Scanners where
+  osDbs : List String
+  /-- databases of an ecosystem that uses `rhel.Coalescer` (rpm on RHEL), one ecosystem each -/
+  rhelDbs : List String := []
+  scanDB : String → String → List Pkg
+  fecos : List FileEco
+  distFile : Bool → String → String := fun _ _ => "etc/os-release"
+  scanDist : Bool → String → String → Option Dist := fun _ _ _ => none
+
+/-- every OS package database path -/
+def Scanners.allDbs (S : Scanners) : List String := S.osDbs ++ S.rhelDbs
+
+/-- OS packages carry the database path and no file path. -/
+def osPkgsOf (S : Scanners) (d c : String) : List Pkg := (S.scanDB d c).map fun p => { p with db := d, fp := "" }
+
+/-- the distribution the ecosystem's scanner finds in one layer scanned in isolation -/
+def distOf (S : Scanners) (rh : Bool) (d : String) (l : FSLayer) : Option Dist :=
+  match fileOf l (S.distFile rh d) with
+  | some c => S.scanDist rh d c
+  | none => none
+
+/-- what the OS scanners of database `d` store for one layer, scanned in isolation -/
+def osArts (S : Scanners) (rh : Bool) (d : String) (l : FSLayer) : Layer :=
+  { hash := l.hash, pkgs := (match fileOf l d with | some c => osPkgsOf S d c | none => []),
+    dists := (distOf S rh d l).toList }
+
+/-- the packages of one file: `Filepath` is the file they were read from -/
+def filePkgsAt (E : FileEco) (q c : String) : List Pkg := (E.scan q c).map fun p => { p with fp := q }
+
+/-- what the ecosystem's package scanner finds in one layer scanned in isolation -/
+def filePkgs (E : FileEco) (l : FSLayer) : List Pkg :=
+  l.entries.flatMap fun e => match e.2 with
+    | .file c => if isWhiteout e.1 then [] else filePkgsAt E e.1 c
+    | .dir => []
+
+def defaultRepo : Repo := { id := "R", name := "default", key := "", uri := "" }
+
+/-- gobin.Repository (the magic strings of gobin/coalescer.go) -/
+def goRepo : Repo := { id := "G", name := "go", key := "", uri := "https://pkg.go.dev/" }
+
+def FileEco.repo (E : FileEco) : Repo := if E.gobin then goRepo else defaultRepo
+
+/-- file ecosystem: `LayerScanner` stores the scanner's default repository whenever it found a package -/
+def fileArts (E : FileEco) (l : FSLayer) : Layer :=
+  { hash := l.hash, pkgs := filePkgs E l, repos := if (filePkgs E l).isEmpty then [] else [E.repo] }
+
+def FileEco.kind (E : FileEco) : Kind := if E.gobin then Kind.gobin else Kind.lang
+
+def whArts (l : FSLayer) : Layer :=
+  { hash := l.hash, files := (whiteoutsOf l).map fun w => { path := w, kind := whiteoutKind } }
+
+/-- the per-ecosystem artifact lists, packed per manifest layer as `controller.coalesce` does -/
+def ecosOf (S : Scanners) (layers : List FSLayer) : List (Kind × List Layer) :=
+  (((S.osDbs.map fun d => (Kind.linux, layers.map (osArts S false d))) ++
+   (S.rhelDbs.map fun d => (Kind.rhel, layers.map (osArts S true d)))) ++
+   (S.fecos.map fun E => (E.kind, layers.map (fileArts E)))) ++
+    [(Kind.wh, layers.map whArts)]
+
+/-- `Index` on a layer stack: every layer scanned in isolation, then coalesce, MergeSR, resolve -/
+def indexModel (S : Scanners) (layers : List FSLayer) : Option Report :=
+  indexCoalesce (layers.map (·.hash)) (ecosOf S layers)
+
+/-- every package some file ecosystem finds in a layer -/
+def allFilePkgs (S : Scanners) (l : FSLayer) : List Pkg := S.fecos.flatMap fun E => filePkgs E l
+
+/-- the same scanners on the single flattened file system -/
+def scanImage (S : Scanners) (layers : List FSLayer) : List Pkg :=
+  (S.allDbs.flatMap fun d => match present layers d with | some c => osPkgsOf S d c | none => []) ++
+    S.fecos.flatMap fun E => (flatten layers).flatMap fun qc => filePkgsAt E qc.1 qc.2
+
+/-- the distribution the ecosystem's scanner finds on the flattened file system -/
+def imageDist (S : Scanners) (rh : Bool) (d : String) (layers : List FSLayer) : Option Dist :=
+  match present layers (S.distFile rh d) with
+  | some c => S.scanDist rh d c
+  | none => none
+
+/-! ### the (decidable) hypothesis of the composition theorem, executable
+
+  `tameB` is the Boolean form of `Tame` (Proofs/LayerFS.lean, `tameB_iff`); the driver
+  evaluates it on the abstraction of every generated history. -/
+
+/-- ids of two file ecosystems are apart -/
+def ecoApart (layers : List FSLayer) (E E' : FileEco) : Prop :=
+  ∀ l ∈ layers, ∀ p ∈ filePkgs E l, ∀ l' ∈ layers, ∀ p' ∈ filePkgs E' l', p.id ≠ p'.id
+
+instance (layers : List FSLayer) (E E' : FileEco) : Decidable (ecoApart layers E E') := by
+  unfold ecoApart; infer_instance
+
+def tameB (S : Scanners) (layers : List FSLayer) : Bool :=
+  decide (∀ l ∈ layers, ∀ l' ∈ layers, l.hash = l'.hash → l.entries = l'.entries) &&
+  decide (∀ l ∈ layers, (l.entries.map (·.1)).Nodup) &&
+  decide (∀ l ∈ layers, (whiteoutsOf l).length ≤ 1 ∧ whiteoutsOf l = whiteoutFiles l) &&
+  decide (∀ l ∈ layers, ∀ w ∈ whiteoutsOf l, ¬ (base w = opqName ∧ dir w = ".")) &&
+  decide (∀ l ∈ layers, ∀ l' ∈ layers, ∀ p ∈ allFilePkgs S l', hides l p.fp = (whiteoutFiles l).any fun w => covers w p.fp) &&
+  decide (∀ d ∈ S.allDbs, ∀ l ∈ layers, hides l d = false ∧ ∀ c ∈ fileOf l d, S.scanDB d c ≠ []) &&
+  decide (∀ E ∈ S.fecos, layers.Pairwise fun l l' => ∀ e ∈ l.entries, ∀ c ∈ fileOf l e.1, ∀ p ∈ E.scan e.1 c,
+      ∀ c' ∈ fileOf l' e.1, (∃ p' ∈ E.scan e.1 c', p'.id = p.id) ∨ hides l' e.1 = true) &&
+  decide (∀ E ∈ S.fecos, ∀ l ∈ layers, ∀ l' ∈ layers, ∀ p ∈ filePkgs E l, ∀ p' ∈ filePkgs E l',
+      p.id = p'.id → p.fp = p'.fp ∧ p.db = p'.db) &&
+  decide (∀ d ∈ S.allDbs, ∀ l ∈ layers, ∀ c ∈ fileOf l d, ∀ p ∈ S.scanDB d c,
+      ∀ l' ∈ layers, ∀ p' ∈ allFilePkgs S l', p.id ≠ p'.id) &&
+  decide (S.fecos.Pairwise (ecoApart layers)) &&
+  decide (∀ E ∈ S.fecos, E.gobin = true → ∀ l ∈ layers, ∀ p ∈ filePkgs E l, hasGoPrefix p.db = true)
+
+/-! ### line protocol: `flat layer|layer|…`, layer = `-` or `path:d,path:cN,…` -/
+
+def parseEntry (s : String) : Option (String × Entry) :=
+  match s.splitOn ":" with
+  | [p, "d"] => some (p, .dir)
+  | [p, c] => some (p, .file c)
+  | _ => none
+
+def parseFSLayer (s : String) : Option FSLayer :=
+  if s = "-" then some { hash := "", entries := [] }
+  else (s.splitOn ",").mapM parseEntry |>.map fun es => { hash := "", entries := es }
+
+def flatLine (s : String) : String :=
+  match (s.splitOn "|").mapM parseFSLayer with
+  | none => "bad-op"
+  | some layers =>
+    let out := (flatten layers).map fun (p, c) => p ++ ":" ++ c
+    let sorted := out.mergeSort fun a b => !(b < a)
+    if sorted.isEmpty then "-" else ",".intercalate sorted
+
+/-! ### line protocol: `e2e <osdbs> <rheldbs> <fecos> <table> <stack>` — the whole model against the real indexer
+
+  osdbs, rheldbs = `-` | db `,` db …            db = `<path>` or `<path>@<distribution file>`
+  fecos  = `-` | name `,` name …                 a name starting with `*` is coalesced by gobin
+  table  = `-` | entry `,` entry …
+             `O~<content>~<id>+<id>…`              what the OS scanner reads out of a database content
+             `F~<eco>~<path>~<content>~<id>~<db>`  a package the ecosystem's scanner finds in a file (several lines per file allowed)
+             `D~<0|1>~<db>~<content>~<dist>`       what the distribution scanner of that ecosystem makes of its file
+  stack  = layer `|` layer …,  layer = `<hash>;<entries>` (entries as in `flat`)
+  answer = `tame=<bool> idx=<id@db#dist,…> img=<id@db,…> dist=<0|1>:<db>=<dist>,…`
+-/
+
+def mkPkg (id db : String) : Pkg :=
+  { id := id, name := id, version := "", kind := "", arch := "", src := "", db := db, fp := "" }
+
+structure ScanTable where
+  os : List (String × List String) := []
+  files : List ((String × String × String) × (String × String)) := []
+  dists : List ((Bool × String × String) × String) := []
+
+def parseTableEntry (t : ScanTable) (s : String) : Option ScanTable :=
+  match s.splitOn "~" with
+  | ["O", c, ids] => some { t with os := t.os ++ [(c, if ids = "" then [] else ids.splitOn "+")] }
+  | ["F", eco, q, c, id, db] => some { t with files := t.files ++ [((eco, q, c), (id, db))] }
+  | ["D", rh, d, c, dist] => some { t with dists := t.dists ++ [((decide (rh = "1"), d, c), dist)] }
+  | _ => none
+
+def parseTable (s : String) : Option ScanTable :=
+  if s = "-" then some {} else (s.splitOn ",").foldlM parseTableEntry {}
+
+/-- `path` or `path@distfile` -/
+def parseDbSpec (s : String) : String × String :=
+  match s.splitOn "@" with
+  | [d, f] => (d, f)
+  | _ => (s, "etc/os-release")
+
+def listField (s : String) : List String := if s = "-" then [] else s.splitOn ","
+
+def tableEco (t : ScanTable) (name : String) : FileEco where
+  gobin := name.toList.head? = some '*'
+  scan := fun q c => (t.files.filter fun e => e.1.1 = name ∧ e.1.2.1 = q ∧ e.1.2.2 = c).map fun e => mkPkg e.2.1 e.2.2
+
+def tableScanners (os rh : List (String × String)) (fecos : List String) (t : ScanTable) : Scanners where
+  osDbs := os.map (·.1)
+  rhelDbs := rh.map (·.1)
+  scanDB := fun d c => ((t.os.find? fun e => e.1 = c).map fun e => e.2.map fun id => mkPkg id d).getD []
+  fecos := fecos.map (tableEco t)
+  distFile := fun b d => (((if b then rh else os).find? fun e => e.1 = d).map (·.2)).getD "etc/os-release"
+  scanDist := fun b d c => (t.dists.find? fun e => e.1.1 = b ∧ e.1.2.1 = d ∧ e.1.2.2 = c).map fun e => { id := e.2 }
+
+def parseHashedLayer (s : String) : Option FSLayer :=
+  match s.splitOn ";" with
+  | [h, es] => (parseFSLayer es).map fun l => { l with hash := h }
+  | _ => none
+
+def sortDedup (xs : List String) : List String :=
+  let sorted := xs.mergeSort fun a b => !(b < a)
+  sorted.foldr (fun x acc => match acc with | y :: _ => if x = y then acc else x :: acc | [] => [x]) []
+
+def distName (d : Option Dist) : String := match d with | some x => x.id | none => "-"
+
+def e2eLine (osdbs rheldbs fecos table stack : String) : String :=
+  match parseTable table, (stack.splitOn "|").mapM parseHashedLayer with
+  | some t, some layers =>
+    let S := tableScanners ((listField osdbs).map parseDbSpec) ((listField rheldbs).map parseDbSpec) (listField fecos) t
+    let idx := match indexModel S layers with
+      | none => "fail"
+      | some r => ",".intercalate (sortDedup (r.envs.flatMap fun (ie : String × List Env) => ie.2.map fun (e : Env) =>
+          ie.1 ++ "@" ++ e.db ++ "#" ++ (if e.distId = "" then "-" else e.distId)))
+    let img := ",".intercalate (sortDedup ((scanImage S layers).map fun (p : Pkg) => p.id ++ "@" ++ p.db))
+    let ds := (S.osDbs.map fun d => "0:" ++ d ++ "=" ++ distName (imageDist S false d layers)) ++
+      (S.rhelDbs.map fun d => "1:" ++ d ++ "=" ++ distName (imageDist S true d layers))
+    s!"tame={tameB S layers} idx={idx} img={img} dist={",".intercalate ds}"
+  | _, _ => "bad-op"
+
+end ClairModel.LayerFS
